@@ -76,52 +76,58 @@ def solve_neq(pairs, pc=(), timeout_s=120, assumptions=None, congruence=True):
         # proof serves every arm that produced the same terms
         pc_core = tuple((c, v) for c, v in pc if T.support([c])[0] != {'cpu'})
         ck = (tuple(diff), pc_core)
+        walk_failed_before = False
         if ck in _CONGR_CACHE:
             STATS['congruence_cached'] = STATS.get('congruence_cached', 0) + 1
-            return ('unsat' if _CONGR_CACHE[ck] else 'unknown'), None, time.time() - t0
+            if _CONGR_CACHE[ck]:
+                return 'unsat', None, time.time() - t0
+            # the (budgeted) walk failed for another arm with the same terms: do not repeat it, but the bounded full query below
+            # may still decide (it can answer sat, and its model must select THIS arm)
+            walk_failed_before = True
         # sat side first: the strengthened query "inputs = corner / seed-derived constants" (any model of it is a model
         # of the original query); a differing crypto core differs on almost every input, a boundary slip on a corner
         model = congr.simulate_difference(diff, pc)
         if model is not None:
             STATS['sat_by_simulation'] = STATS.get('sat_by_simulation', 0) + 1
             return 'sat', model, time.time() - t0
-        # small-cone merging + substitution: makes structurally parallel DAGs syntactically identical
-        def _solve(ps, pcx):
-            return solve_neq(ps, pcx, 30, None, False)[0]
-        newpairs, nmerged, nq = diff, 0, 0
-        if USE_CONE_MERGE:
-            try:
-                newpairs, nmerged, nq = congr.merge_small_cones(diff, pc, solve=_solve)
-            except RecursionError:
-                newpairs, nmerged, nq = diff, 0, 0
-        if nmerged:
-            STATS['cone_merges'] = STATS.get('cone_merges', 0) + nmerged
-            rest = [(g, e) for g, e in newpairs if g != e]
-            if not rest:
-                _CONGR_CACHE[ck] = True
-                return 'unsat', None, time.time() - t0
-            diff2 = rest
-        else:
-            diff2 = diff
-        ok, residual = congr.reduce_pairs(diff2, 0, pc)
-        if ok:
-            if not residual:
-                _CONGR_CACHE[ck] = True
-                return 'unsat', None, time.time() - t0
-            # first without the path condition (stronger, and then valid for every path with the same terms)
-            st, model, _ = solve_neq(residual, (), min(timeout_s, 60), None, False)
-            if st in ('unsat', 'identical'):
-                _CONGR_CACHE[ck] = True
-            elif pc_core:
-                st, model, _ = solve_neq(residual, pc_core, min(timeout_s, 60), None, False)
+        if not walk_failed_before:
+            # small-cone merging + substitution: makes structurally parallel DAGs syntactically identical
+            def _solve(ps, pcx):
+                return solve_neq(ps, pcx, 30, None, False)[0]
+            newpairs, nmerged, nq = diff, 0, 0
+            if USE_CONE_MERGE:
+                try:
+                    newpairs, nmerged, nq = congr.merge_small_cones(diff, pc, solve=_solve)
+                except RecursionError:
+                    newpairs, nmerged, nq = diff, 0, 0
+            if nmerged:
+                STATS['cone_merges'] = STATS.get('cone_merges', 0) + nmerged
+                rest = [(g, e) for g, e in newpairs if g != e]
+                if not rest:
+                    _CONGR_CACHE[ck] = True
+                    return 'unsat', None, time.time() - t0
+                diff2 = rest
+            else:
+                diff2 = diff
+            ok, residual = congr.reduce_pairs(diff2, 0, pc)
+            if ok:
+                if not residual:
+                    _CONGR_CACHE[ck] = True
+                    return 'unsat', None, time.time() - t0
+                # first without the path condition (stronger, and then valid for every path with the same terms)
+                st, model, _ = solve_neq(residual, (), min(timeout_s, 60), None, False)
                 if st in ('unsat', 'identical'):
                     _CONGR_CACHE[ck] = True
-            if st not in ('unsat', 'identical') and len(pc_core) != len(pc):
-                st, model, _ = solve_neq(residual, pc, min(timeout_s, 60), None, False)
-            if st in ('unsat', 'identical'):
-                STATS['congruence'] = STATS.get('congruence', 0) + 1
-                STATS['residuals'] = STATS.get('residuals', 0) + len(residual)
-                return 'unsat', None, time.time() - t0
+                elif pc_core:
+                    st, model, _ = solve_neq(residual, pc_core, min(timeout_s, 60), None, False)
+                    if st in ('unsat', 'identical'):
+                        _CONGR_CACHE[ck] = True
+                if st not in ('unsat', 'identical') and len(pc_core) != len(pc):
+                    st, model, _ = solve_neq(residual, pc, min(timeout_s, 60), None, False)
+                if st in ('unsat', 'identical'):
+                    STATS['congruence'] = STATS.get('congruence', 0) + 1
+                    STATS['residuals'] = STATS.get('residuals', 0) + len(residual)
+                    return 'unsat', None, time.time() - t0
         # remember the failure: the other arms that produced the same terms need not repeat the (budgeted) walk
         _CONGR_CACHE[ck] = False
     if not congruence:
@@ -170,19 +176,14 @@ def solve_neq(pairs, pc=(), timeout_s=120, assumptions=None, congruence=True):
 
 
 def z3_check(s, timeout_s):
-    """s.check() with a hard wall-clock limit: z3's own timeout is not honoured inside some preprocessing steps (measured:
-    a 20 s query over deep ARX terms ran for 20 minutes), so a watchdog interrupts the context; an interrupted query is unknown"""
-    import threading
+    """s.check() under z3's own timeout. (A watchdog calling ctx.interrupt() was tried for the cases where z3 overruns its
+    timeout: in this z3 build an interrupt during rewriting aborts the process with an internal assertion, so runaway queries
+    are bounded by the per-task process timeout of `parallel` instead.)"""
     import z3
-    tm = threading.Timer(timeout_s + 3, lambda: s.ctx.interrupt())
-    tm.daemon = True
-    tm.start()
     try:
         return s.check()
     except z3.Z3Exception:
         return z3.unknown
-    finally:
-        tm.cancel()
 
 
 _VW_SEEN = {}
@@ -383,7 +384,11 @@ class Run:
         from . import congr
         diff = [(g, e) for g, e in pairs if g != e]
         t0 = time.time()
-        model = congr.simulate_difference(diff, pc)
+        # a wrong core makes nearly every output word differ; when most words are already syntactically identical and the DAG is large
+        # the difference is almost certainly counter / length arithmetic: go to the small-cone lemmas first (their refuters give
+        # targeted candidates) and leave the costly whole-DAG simulation to the end (Run.equal below) if they do not settle it
+        large = T.support([x for pr in diff for x in pr])[1] > 1500
+        model = None if (large and 4 * len(diff) <= len(pairs)) else congr.simulate_difference(diff, pc)
         if model is None:
             def _solve(ps, pcx):
                 r_ = solve_neq(ps, pcx, 30, None, False)
@@ -400,9 +405,14 @@ class Run:
                 na1 = {k: v for k, v in na1.items() if k not in na}
                 # a model that refutes a local lemma (e.g. "the impl's next counter == the reference's next counter") is a prime
                 # candidate for a global counterexample: evaluate the whole obligation under it
-                for asg in list(congr.REFUTERS):
-                    names_, _ = T.support([x for pr in pairs for x in pr] + [c for c, v in pc])
+                names_, _ = T.support([x for pr in pairs for x in pr] + [c for c, v in pc])
+                tried_ = _CONGR_CACHE.setdefault(('refuters-tried', ck), set())
+                for asg in list(congr.REFUTERS)[:(3 if T.support([x for pr in pairs for x in pr])[1] > 1500 else 8)][:(2 if rnd else 3)]:
                     full_ = {n_: asg.get(n_, 0) for n_ in names_}
+                    fk_ = tuple(sorted((k_, v_) for k_, v_ in full_.items() if k_ != 'cpu'))
+                    if fk_ in tried_:
+                        continue        # same data under another arm / round: the whole-DAG evaluation would give the same values
+                    tried_.add(fk_)
                     ev_ = T.Evaluator(full_)
                     if all(ev_.val(c) == (1 if v else 0) for c, v in pc) and any(ev_.val(g) != ev_.val(e) for g, e in pairs):
                         ob = Obligation(name)
@@ -659,7 +669,7 @@ def parallel(run, fn, tasks, nproc=None):
     # attributed exactly and cannot stall the pool; VERIF_TASK_TIMEOUT_S bounds every task
     from multiprocessing import connection as mpc
     ctx = mp.get_context('fork')
-    task_timeout = float(os.environ.get('VERIF_TASK_TIMEOUT_S', '1800') or 1800)
+    task_timeout = float(os.environ.get('VERIF_TASK_TIMEOUT_S', '1500') or 1500)
     pending = list(jobs)
     running = {}
     while pending or running:
